@@ -2,6 +2,7 @@
 package main
 
 import (
+	"encoding/json"
 	"flag"
 	"fmt"
 	"os"
@@ -51,3 +52,13 @@ func main() {
 type discard struct{}
 
 func (discard) Write(p []byte) (int, error) { return len(p), nil }
+
+func jsonMarshal(v interface{}) ([]byte, error)   { return json.Marshal(v) }
+func jsonUnmarshal(b []byte, v interface{}) error { return json.Unmarshal(b, v) }
+
+func short(b []byte) []byte {
+	if len(b) > 24 {
+		return b[:24]
+	}
+	return b
+}
